@@ -117,7 +117,8 @@ inductive Outcome where
   /-- replied `MOVED <slot> <addr>` -/
   | moved (slot : Nat) (addr : Addr)
   /-- active redirection: handed to the sender of peer proxy `addr`; `times = some t` means it was
-  first wrapped as `UMFORWARD t <cmd>` -/
+  first wrapped as `UMFORWARD t <cmd>` (always the case since /repo 04a2318; the `none` form is kept so
+  that the constructor's signature stays stable for C02/C14) -/
   | forward (slot : Nat) (addr : Addr) (times : Option Nat)
   | errClusterNotFound
   | errMissingKey
@@ -128,15 +129,20 @@ inductive Outcome where
   | errNodeNotFound
   deriving Repr, DecidableEq
 
-/-- `cmd_ctx.get_redirection_times().or_else(|| max_redirections.map(|n| n.get() - 1))` -/
+def USIZE_MAX : Nat := 18446744073709551615
+
+/-- `cmd_ctx.get_redirection_times().or_else(|| max_redirections.map(|n| n.get() - 1)).or(Some(usize::MAX))`
+(/repo 04a2318: a forwarded command is **always** wrapped, so the value is always `some`;
+`redirBudget_isSome` in `UmProofs/Route.lean`) -/
 def redirBudget (cfg : RouteCfg) (redirTimes : Option Nat) : Option Nat :=
   match redirTimes with
   | some t => some t
-  | none => cfg.maxRedirections.map (· - 1)
+  | none => some ((cfg.maxRedirections.map (· - 1)).getD USIZE_MAX)
 
 /-- `send_cmd_ctx_to_remote_directly` + `RemoteCluster::send_remote_directly`: the redirection
-budget is the command's own (`UMFORWARD t`) or `max_redirections - 1`; `checked_sub(1)` failing means
-`ERR_TOO_MANY_REDIRECTIONS`, otherwise the command is wrapped with the decremented budget -/
+budget is the command's own (`UMFORWARD t`), else `max_redirections - 1`, else `usize::MAX`;
+`checked_sub(1)` failing means `ERR_TOO_MANY_REDIRECTIONS`, otherwise the command is wrapped as
+`UMFORWARD (budget - 1) <cmd>` and handed to the peer's sender -/
 def sendRemoteDirectly (cfg : RouteCfg) (cm : ClusterMap) (redirTimes : Option Nat) (slot : Nat)
     (addr : Addr) : Outcome :=
   if redirBudget cfg redirTimes = some 0 then .errTooManyRedirections
